@@ -96,6 +96,8 @@ def oracle_run(args):
     try:
         cls = getattr(mudslide, spec["cls"])
         extra = {"max_electronic_dt": spec["max_edt"]} if "max_edt" in spec else {}
+        if spec.get("zetas") is not None:
+            extra["zeta_list"] = [float(z) for z in spec["zetas"]]
         t = cls(model, x0, p0, rho0, state0=0, dt=spec["dt"], max_steps=spec["steps"], seed_sequence=spec["seed"],
                 electronic_integration=spec["integ"], **extra)
         tr = t.simulate()
@@ -395,6 +397,25 @@ def run(ctx):
         ok, obs, req, text = oracle_run(spec)
         ctx.case(("run", spec["builtin"], spec["integ"], spec["cls"]))
         ctx.count("run:%s:%s" % (spec["builtin"], spec["integ"]))
+        if not ok:
+            sig = "rk4-not-unitary" if obs.get("only_rk4_truncation") else "invalid-state-in-run:%s:%s" % (spec["builtin"], spec["integ"])
+            ctx.oracle_fail(sig, "run", spec, obs, req, text)
+    # the DIABATIC representation (no derivative coupling at all) with hop attempts at every step that has a positive rate, both
+    # integrators: attempts - accepted or not - leave the electronic data of the step, hence the next generator, as they are
+    # (with no coupling vector there is nothing to rescale along: an attempt towards a HIGHER diabat is rejected, one towards a lower
+    # diabat raises LinAlgError in np.roots on the pinned tree - outside what C02 speaks about; the runs below stay where the active
+    # diabat is the lowest one: x < 0 on the simple avoided crossing, everywhere on the super-exchange model)
+    for i in range(ctx.budget(4, 24)):
+        spec = dict(cls="TrajectorySH", builtin=["simple", "super"][i % 2], kwargs={"representation": "diabatic"},
+                    x0=[float(-rng.uniform(3.0, 3.4))], p0=[float(rng.uniform(22, 29))], model_seed=int(rng.integers(1, 10 ** 6)), seed=7,
+                    dt=2.0, steps=95, integ=["linear-rk4", "exp"][(i // 2) % 2], rho="basis", zetas=[1.0] * 20 + [1e-12] * 100)
+        if spec["builtin"] == "super":
+            spec.update(x0=[float(-rng.uniform(4.0, 6.0))], p0=[float(rng.uniform(8, 20))], steps=int(rng.integers(150, 400)), dt=5.0,
+                        zetas=[1.0] * 20 + [1e-12] * 500)
+        ok, obs, req, text = oracle_run(spec)
+        ctx.case(("run-diabatic-attempts", spec["builtin"], spec["integ"], int(obs.get("hop_attempts", 0)) > 0))
+        ctx.count("run_diabatic_with_forced_attempts:" + spec["integ"])
+        ctx.count("hop_attempts_in_the_diabatic_representation", int(obs.get("hop_attempts", 0)))
         if not ok:
             sig = "rk4-not-unitary" if obs.get("only_rk4_truncation") else "invalid-state-in-run:%s:%s" % (spec["builtin"], spec["integ"])
             ctx.oracle_fail(sig, "run", spec, obs, req, text)
